@@ -1,4 +1,5 @@
-import Gnmi.Lemmas.CacheFeed
+import Gnmi.Lemmas.CacheFeedState
+import Gnmi.Props.C14
 /-!
 # C03, part 2 — replaying the change feed reproduces the cache
 
@@ -35,42 +36,42 @@ def runT (cfg : Cfg) (t : Target) : List (Int × Noti) → Target × List Event
     let r' := runT cfg r.2.1 rest
     (r'.1, r.2.2.flatten ++ r'.2)
 
-def WellFormed (hist : List (Int × Noti)) : Prop :=
-  ∀ x ∈ hist, x.2.target ≠ "" ∧ Clean x.2
+def WellFormed (nm : String) (hist : List (Int × Noti)) : Prop :=
+  nm ≠ "" ∧ ∀ x ∈ hist, x.2.target = nm ∧ Clean x.2
 
 /-- **Feed simulation.** From any state in which a view follows the tree, after any well-formed
 history the view that has applied the emitted events follows the resulting tree (and the tree
 keeps the structural invariants the argument rests on). -/
-theorem feed_simulation (cfg : Cfg) : ∀ (hist : List (Int × Noti)) (t : Target) (view : View),
-    WellFormed hist → GT cfg view t.tree →
-    GT cfg (applyEvents view (runT cfg t hist).2) (runT cfg t hist).1.tree
+theorem feed_simulation (cfg : Cfg) (nm : String) : ∀ (hist : List (Int × Noti)) (t : Target) (view : View),
+    WellFormed nm hist → GT cfg nm view t.tree →
+    GT cfg nm (applyEvents view (runT cfg t hist).2) (runT cfg t hist).1.tree
   | [], t, view, _, hg => hg
   | x :: rest, t, view, hw, hg => by
-    obtain ⟨ht, hc⟩ := hw x (List.mem_cons_self ..)
-    obtain ⟨_, h2⟩ := gnmiUpdate_sim (cfg := cfg) (view := view) x.1 t x.2 ht hc hg
-    have ih := feed_simulation cfg rest (t.gnmiUpdate cfg x.1 x.2).2.1 _
-      (fun y hy => hw y (List.mem_cons_of_mem _ hy)) h2
-    show GT cfg (applyEvents view ((t.gnmiUpdate cfg x.1 x.2).2.2.flatten ++
+    obtain ⟨ht, hc⟩ := hw.2 x (List.mem_cons_self ..)
+    obtain ⟨_, _, h2⟩ := gnmiUpdate_sim (cfg := cfg) (nm := nm) (view := view) x.1 t x.2 hw.1 ht hc hg
+    have ih := feed_simulation cfg nm rest (t.gnmiUpdate cfg x.1 x.2).2.1 _
+      ⟨hw.1, fun y hy => hw.2 y (List.mem_cons_of_mem _ hy)⟩ h2
+    show GT cfg nm (applyEvents view ((t.gnmiUpdate cfg x.1 x.2).2.2.flatten ++
       (runT cfg (t.gnmiUpdate cfg x.1 x.2).2.1 rest).2)) (runT cfg (t.gnmiUpdate cfg x.1 x.2).2.1 rest).1.tree
     rw [← applyEvents_append]
     exact ih
 
 /-- no notification of a well-formed history makes the cache panic, in any reachable state -/
-theorem history_never_panics (cfg : Cfg) (hist : List (Int × Noti)) (t : Target) (view : View)
-    (hw : WellFormed hist) (hg : GT cfg view t.tree) (pre : List (Int × Noti)) (x : Int × Noti)
+theorem history_never_panics (cfg : Cfg) (nm : String) (hist : List (Int × Noti)) (t : Target) (view : View)
+    (hw : WellFormed nm hist) (hg : GT cfg nm view t.tree) (pre : List (Int × Noti)) (x : Int × Noti)
     (post : List (Int × Noti)) (hsplit : hist = pre ++ x :: post) :
     ((runT cfg t pre).1.gnmiUpdate cfg x.1 x.2).1 ≠ .panic := by
-  have hwp : WellFormed pre := fun y hy => hw y (by rw [hsplit]; exact List.mem_append_left _ hy)
-  have hx := hw x (by rw [hsplit]; exact List.mem_append_right _ (List.mem_cons_self ..))
-  exact (gnmiUpdate_sim (cfg := cfg) x.1 _ x.2 hx.1 hx.2 (feed_simulation cfg pre t view hwp hg)).1
+  have hwp : WellFormed nm pre := ⟨hw.1, fun y hy => hw.2 y (by rw [hsplit]; exact List.mem_append_left _ hy)⟩
+  have hx := hw.2 x (by rw [hsplit]; exact List.mem_append_right _ (List.mem_cons_self ..))
+  exact (gnmiUpdate_sim (cfg := cfg) (nm := nm) x.1 _ x.2 hw.1 hx.1 hx.2 (feed_simulation cfg nm pre t view hwp hg)).1
 
 /-- **Replay is exact without event-driven emulation**: a replica built from the feed of a fresh
 target holds exactly the (index, notification) pairs the cache holds. -/
 theorem feed_replay_exact (cfg : Cfg) (he : cfg.eventDriven = false) (name : String)
-    (hist : List (Int × Noti)) (hw : WellFormed hist) :
+    (hist : List (Int × Noti)) (hw : WellFormed name hist) :
     ∀ kv, kv ∈ applyEvents [] (runT cfg { name := name } hist).2 ↔
       kv ∈ (runT cfg { name := name } hist).1.tree := by
-  have hg := feed_simulation cfg hist { name := name } [] hw (GT.init cfg)
+  have hg := feed_simulation cfg name hist { name := name } [] hw (GT.init cfg name)
   have heq : ∀ k, lookup (applyEvents [] (runT cfg { name := name } hist).2) k =
       lookup (runT cfg { name := name } hist).1.tree k := by
     intro k
@@ -90,7 +91,7 @@ theorem feed_replay_exact (cfg : Cfg) (he : cfg.eventDriven = false) (name : Str
 
 /-- **Replay with event-driven emulation**: same leaves; each leaf's notification is the cache's
 own, or (both plain) one that carries an equal value. -/
-theorem feed_replay_values (cfg : Cfg) (name : String) (hist : List (Int × Noti)) (hw : WellFormed hist) (k : Path) :
+theorem feed_replay_values (cfg : Cfg) (name : String) (hist : List (Int × Noti)) (hw : WellFormed name hist) (k : Path) :
     match lookup (applyEvents [] (runT cfg { name := name } hist).2) k,
           lookup (runT cfg { name := name } hist).1.tree k with
     | none, none => True
@@ -98,7 +99,7 @@ theorem feed_replay_values (cfg : Cfg) (name : String) (hist : List (Int × Noti
         v = n ∨ (cfg.eventDriven = true ∧ v.atomic = false ∧ n.atomic = false ∧
           valueEqual (Feed.headVal v) (Feed.headVal n) = true)
     | _, _ => False := by
-  have hg := feed_simulation cfg hist { name := name } [] hw (GT.init cfg)
+  have hg := feed_simulation cfg name hist { name := name } [] hw (GT.init cfg name)
   have := hg.r.agree k
   revert this
   cases lookup (applyEvents [] (runT cfg { name := name } hist).2) k <;>
@@ -108,7 +109,7 @@ theorem feed_replay_values (cfg : Cfg) (name : String) (hist : List (Int × Noti
 last accepted update of `k` changed its value (or either side is atomic), view and cache agree
 exactly.  (Direct from `feed_replay_values`: the only slack is `Supp`.) -/
 theorem feed_replay_same_when_differs (cfg : Cfg) (name : String) (hist : List (Int × Noti))
-    (hw : WellFormed hist) (k : Path) (v n : Noti)
+    (hw : WellFormed name hist) (k : Path) (v n : Noti)
     (hv : lookup (applyEvents [] (runT cfg { name := name } hist).2) k = some v)
     (hn : lookup (runT cfg { name := name } hist).1.tree k = some n)
     (hd : valueEqual (Feed.headVal v) (Feed.headVal n) = false ∨ v.atomic = true ∨ n.atomic = true) : v = n := by
@@ -134,15 +135,16 @@ def hist0 : List (Int × Noti) :=
     (13, { ts := 4, target := "t", praw := "p", del := [{ path := ["a", "*"], raw := "d" }] }),      -- wildcard delete
     (14, { ts := 0, target := "t", praw := "p", upd := [u2] }) ]                          -- re-add (older ts is fine: leaf is gone)
 
-example : WellFormed hist0 := by
+example : WellFormed "t" hist0 := by
+  refine ⟨by decide, ?_⟩
   intro x hx
   simp only [hist0, List.mem_cons, List.not_mem_nil, or_false] at hx
   rcases hx with rfl | rfl | rfl | rfl | rfl <;>
-    refine ⟨by decide, ?_⟩ <;> intro u hu <;>
+    refine ⟨rfl, ?_⟩ <;> intro u hu <;>
     simp only [List.mem_cons, List.not_mem_nil, or_false] at hu <;>
     first
-      | (rcases hu with rfl | rfl <;> exact ⟨by decide, Or.inr rfl⟩)
-      | (subst hu; exact ⟨by decide, Or.inr rfl⟩)
+      | (rcases hu with rfl | rfl <;> exact ⟨by decide, Or.inr rfl, by decide⟩)
+      | (subst hu; exact ⟨by decide, Or.inr rfl, by decide⟩)
       | exact hu.elim
 
 /-- the run really suppresses one update, emits an atomic unit and two delete events, and ends
@@ -151,6 +153,122 @@ example : ((runT {} { name := "t" } hist0).2.length,
            ((runT {} { name := "t" } hist0).1.tree.map (·.1)),
            ((applyEvents [] (runT {} { name := "t" } hist0).2).map (·.1))) =
     (6, [["a", "c"], ["at"]], [["a", "c"], ["at"]]) := by decide
+
+end C03
+end Gnmi
+
+/-! ## The whole cache: every API call, several targets
+
+`Spec/Feed.lean` routes each event to the view of the target it names (`applySs`).  The history
+ranges over **all** cache API calls: `Add`, `Remove`, `Reset`, `Sync`, `Connect`, `ConnectError`,
+`GnmiUpdate` (any shape) and the periodic `UpdateMetadata`. -/
+namespace Gnmi
+namespace C03
+open Cache Feed
+
+/-- run a history of API calls, collecting the feed -/
+def runS (enc : String → String) (s : State) : List Op → State × List Event
+  | [] => (s, [])
+  | op :: ops =>
+    let r := s.step enc op
+    let r' := runS enc r.1 ops
+    (r'.1, r.2.2 ++ r'.2)
+
+/-- the side conditions hold along the run: targets are added under fresh non-empty names and
+updates are `Clean` -/
+def OkRun (enc : String → String) (s : State) : List Op → Prop
+  | [] => True
+  | op :: ops => Feed.Op.ok s op ∧ OkRun enc (s.step enc op).1 ops
+
+theorem cache_feed_simulation_from (enc : String → String) : ∀ (ops : List Op) (s : State) (vs : Views),
+    SInv s → SSim vs s → OkRun enc s ops →
+    SInv (runS enc s ops).1 ∧ SSim (applySs vs (runS enc s ops).2) (runS enc s ops).1
+  | [], _, _, hi, hs, _ => ⟨hi, hs⟩
+  | op :: ops, s, vs, hi, hs, hok => by
+    have h1 := step_ssim enc s vs op hi hs hok.1
+    have h2 := (step_sinv enc s op hi (Feed.Op.ok_valid hok.1)).1
+    have ih := cache_feed_simulation_from enc ops _ _ h2 h1 hok.2
+    show SInv (runS enc (s.step enc op).1 ops).1 ∧
+      SSim (applySs vs ((s.step enc op).2.2 ++ (runS enc (s.step enc op).1 ops).2)) (runS enc (s.step enc op).1 ops).1
+    rw [← applySs_append]
+    exact ih
+
+/-- **Whole-cache feed simulation.** After any history of API calls on a fresh cache, the view
+of every registered target — built from nothing but the feed — follows that target's tree, and
+the view of every unknown (never added, or removed) target is empty. -/
+theorem cache_feed_simulation (enc : String → String) (cfg : Cfg) (ops : List Op) (hok : OkRun enc { cfg := cfg } ops) :
+    SSim (applySs (fun _ => []) (runS enc { cfg := cfg } ops).2) (runS enc { cfg := cfg } ops).1 :=
+  (cache_feed_simulation_from enc ops { cfg := cfg } (fun _ => []) (SInv.empty cfg)
+    ⟨fun name t h => by simp [State.get] at h, fun _ _ => rfl⟩ hok).2
+
+/-- the configuration never changes along a run -/
+theorem runS_cfg (enc : String → String) : ∀ (ops : List Op) (s : State), (runS enc s ops).1.cfg = s.cfg
+  | [], _ => rfl
+  | op :: ops, s => by
+    show (runS enc (s.step enc op).1 ops).1.cfg = s.cfg
+    rw [runS_cfg enc ops]
+    exact C14.step_cfg enc s op
+
+/-- **Exact replay for the whole cache** (event-driven emulation off): for every registered target
+the replica holds exactly the (index, notification) pairs `Cache.Query` draws its answers from. -/
+theorem cache_replay_exact (enc : String → String) (cfg : Cfg) (he : cfg.eventDriven = false) (ops : List Op)
+    (hok : OkRun enc { cfg := cfg } ops) (name : String) (t : Target)
+    (hg : (runS enc { cfg := cfg } ops).1.get name = some t) :
+    ∀ kv, kv ∈ applySs (fun _ => []) (runS enc { cfg := cfg } ops).2 name ↔ kv ∈ t.tree := by
+  have hs := (cache_feed_simulation enc cfg ops hok).1 name t hg
+  rw [runS_cfg] at hs
+  have heq : ∀ k, lookup (applySs (fun _ => []) (runS enc { cfg := cfg } ops).2 name) k = lookup t.tree k := by
+    intro k
+    have := hs.r.agree k
+    revert this
+    cases lookup (applySs (fun _ => []) (runS enc { cfg := cfg } ops).2 name) k <;>
+      cases lookup t.tree k <;> intro h
+    · rfl
+    · exact h.elim
+    · exact h.elim
+    · rcases h with rfl | ⟨h1, _⟩
+      · rfl
+      · rw [he] at h1; cases h1
+  intro kv
+  obtain ⟨k, v⟩ := kv
+  rw [← lookup_some_iff hs.r.unique, ← lookup_some_iff hs.unique, heq k]
+
+/-- a removed (or never added) target leaves nothing behind in the replica -/
+theorem cache_replay_unknown_empty (enc : String → String) (cfg : Cfg) (ops : List Op)
+    (hok : OkRun enc { cfg := cfg } ops) (name : String)
+    (hg : (runS enc { cfg := cfg } ops).1.get name = none) :
+    applySs (fun _ => []) (runS enc { cfg := cfg } ops).2 name = [] :=
+  (cache_feed_simulation enc cfg ops hok).2 name hg
+
+end C03
+end Gnmi
+
+/-! ### Non-vacuity of the whole-cache statement -/
+namespace Gnmi
+namespace C03
+open Cache Feed
+
+def ops0 : List Op :=
+  [ .add "t", .connect "t" 5,
+    .update 10 false { ts := 1, target := "t", praw := "p", upd := [u1, u2] },
+    .sync "t" 11, .updateMetadata 12, .reset "t" 13,
+    .update 14 false { ts := 20, target := "t", praw := "p", upd := [u2] },
+    .remove "t" 15 ]
+
+example : OkRun id {} ops0 := by
+  refine ⟨⟨by decide, rfl⟩, trivial, ?_, trivial, trivial, trivial, ?_, trivial, trivial⟩
+  · intro u hu
+    simp only [List.mem_cons, List.not_mem_nil, or_false] at hu
+    rcases hu with rfl | rfl <;> exact ⟨by decide, Or.inr rfl, by decide⟩
+  · intro u hu
+    simp only [List.mem_cons, List.not_mem_nil, or_false] at hu
+    subst hu; exact ⟨by decide, Or.inr rfl, by decide⟩
+
+/-- before the final `Remove` the replica of `t` holds the data leaf and the metadata leaves;
+after it, nothing -/
+example : ((applySs (fun _ => []) (runS id {} ops0.dropLast).2 "t").length,
+           (applySs (fun _ => []) (runS id {} ops0).2 "t").length,
+           (runS id {} ops0).2.length) = (14, 0, 24) := by decide
 
 end C03
 end Gnmi
